@@ -11,7 +11,7 @@ import ast
 import os
 import re
 
-from ..core import AnalysisError, ClassInfo, FuncInfo, call_name, dotted, func_param_defaults, walk_local
+from ..core import AnalysisError, ClassInfo, FuncInfo, call_name, dotted, func_param_defaults, is_self_attr, walk_local
 from .. import coh
 from .. import fields as F
 
@@ -253,6 +253,13 @@ def _class_rules(ctx, repo, ci: ClassInfo):
                         lossy = x
                     if isinstance(x, ast.BoolOp) and any(isinstance(y, ast.Constant) for y in x.values):
                         lossy = x
+                if lossy is None:
+                    half = _half_of_mapping(repo, ci, v, dn)
+                    if half is not None:
+                        ctx.ob('C11.d3', f'{ci.qual}:{k.value}', False,
+                               f'JSON value of `{k.value}` is `{ast.unparse(v)[:80]}`: {half}, so mappings that differ in the other half serialise identically',
+                               ci.mod.rel, v.lineno, construct=f'{ci.qual}:{k.value}')
+                        continue
                 ctx.ob('C11.d3', f'{ci.qual}:{k.value}', lossy is None,
                        '' if lossy is None else f'JSON value of `{k.value}` is `{ast.unparse(v)[:80]}`: under `{ast.unparse(lossy.test) if isinstance(lossy, ast.IfExp) else "the short-circuit"}` '
                        'a constant is written instead of the field, so distinct values serialise identically', ci.mod.rel, v.lineno, construct=f'{ci.qual}:{k.value}')
@@ -289,6 +296,35 @@ def _class_rules(ctx, repo, ci: ClassInfo):
             ctx.ob('C11.d', f'{ci.qual}:hash-subset-eq', not extra,
                    f'__hash__ reads {extra} that __eq__ ignores: equal values may hash differently' if extra else '',
                    ci.mod.rel, h[1].lineno, construct=ci.qual + ':hash')
+
+
+def _is_mapping_field(repo, ci, attr):
+    """is self.<attr> declared as a dict / Mapping (property return annotation, or the annotation of the __init__ parameter of that name)?"""
+    cands = []
+    m = repo.find_method(ci, attr)
+    if m is not None and m[1].returns is not None:
+        cands.append(ast.unparse(m[1].returns))
+    init = repo.find_method(ci, '__init__')
+    if init is not None:
+        for a in init[1].args.args + init[1].args.kwonlyargs:
+            if a.arg in (attr, attr.lstrip('_')) and a.annotation is not None:
+                cands.append(ast.unparse(a.annotation))
+    return any(t.lstrip('cirq.').startswith(('dict[', 'Mapping[', 'Dict[', 'collections.abc.Mapping[', 'frozendict')) or 'Mapping[' in t.split('|')[0] or t.split('|')[0].strip().startswith('dict[')
+               for t in cands)
+
+
+def _half_of_mapping(repo, ci, v, dict_node):
+    """the written value keeps only the keys or only the values of a mapping-valued field"""
+    whole_src = ast.unparse(dict_node)
+    for x in ast.walk(v):
+        if isinstance(x, ast.Call) and isinstance(x.func, ast.Attribute) and x.func.attr in ('keys', 'values') and is_self_attr(x.func.value):
+            other = 'values' if x.func.attr == 'keys' else 'keys'
+            if f'{ast.unparse(x.func.value)}.{other}()' not in whole_src and f'{ast.unparse(x.func.value)}.items()' not in whole_src:
+                return f'only the {x.func.attr} of {ast.unparse(x.func.value)} are written'
+        if isinstance(x, ast.Call) and isinstance(x.func, ast.Name) and x.func.id in ('sorted', 'list', 'tuple', 'set', 'frozenset') and len(x.args) >= 1 \
+                and is_self_attr(x.args[0]) and _is_mapping_field(repo, ci, x.args[0].attr):
+            return f'{x.func.id}() over the mapping {ast.unparse(x.args[0])} keeps its keys only'
+    return None
 
 
 def _hash_slots(ci):
